@@ -65,6 +65,10 @@ func TestVerifC20FsConc(t *testing.T) {
 		}
 		var wg sync.WaitGroup
 		start := make(chan struct{})
+		bars := make([]sync.WaitGroup, len(names)+len(snames))
+		for i := range bars {
+			bars[i].Add(16)
+		}
 		for w := 0; w < 16; w++ {
 			w := w
 			wg.Add(1)
@@ -97,6 +101,19 @@ func TestVerifC20FsConc(t *testing.T) {
 					}
 					local = append(local, ob{prefix + n, g.Path})
 					return f
+				}
+				// rendezvous: everybody walks to the same fresh name at the same moment
+				for i, n := range names {
+					bars[i].Done()
+					bars[i].Wait()
+					walk("", root, n)
+				}
+				if st := walk("", root, "st"); st != nil {
+					for i, n := range snames {
+						bars[len(names)+i].Done()
+						bars[len(names)+i].Wait()
+						walk("st/", st, n)
+					}
 				}
 				switch w % 4 {
 				case 0:
